@@ -237,6 +237,8 @@ def observe(rec):
                 rec.scops.append("x")
             elif nm == "remove":
                 rec.scops.append("r%d" % rec.names.get(a[0] if a else k["name"]))
+            elif nm == "rollback":
+                rec.scops.append("b")
             else:
                 rec.cleared += 1
             return orig(*a, **k)
@@ -247,7 +249,9 @@ def observe(rec):
     readfortran.Line.parse_line = parse_line
     reader.next = nxt
     reader.put_item = put
-    for nm in ("enter_scope", "exit_scope", "remove", "clear"):
+    for nm in ("enter_scope", "exit_scope", "remove", "clear", "rollback"):
+        if not hasattr(SYMBOL_TABLES, nm):
+            continue
         st_saved[nm] = SYMBOL_TABLES.__dict__.get(nm)
         setattr(SYMBOL_TABLES, nm, mk_scope(nm, getattr(SYMBOL_TABLES, nm)))
     try:
@@ -750,6 +754,10 @@ FIXED = [
     ("program p\nend program q\n", "main-name"),
     ("program p\nif (x) then\nend if\nend program p\nsubroutine s\nend\n", "two-units"),
     ("subroutine a\nend\nsubroutine a\nx = = 1\nend\n", "reuse-top"),
+    ("subroutine s\ndo 12 i=1,n ! c\ndo 12 j=1,n\n12 continue\nif (ok) then\nend if\nend subroutine s\n",
+     "shared-do-comment"),
+    ("subroutine s\ndo 12 i=1,n\n#ifdef X\ndo 12 j=1,n\n#endif\n! c\n12 x = x + 1\nend subroutine s\n",
+     "shared-do-cpp"),
     ("block data\nend block data bd\n", "unnamed-start"),
     ("module m\ncontains\nsubroutine s\nblock data\nend block data bd\nend subroutine s\nend module m\n",
      "unnamed-start-nested"),
